@@ -1106,6 +1106,8 @@ impl<T: From<f32> + Clone> JitTracingEval<T> {
         self.choices.fill(Choice::Unknown);
         self.out.resize(tape.output_count, f32::NAN.into());
         self.out.fill(f32::NAN.into());
+        #[cfg(fidget_verif)]
+        fidget_core::verif::sched_point();
         unsafe {
             (tape.fn_trace)(
                 vars.as_ptr(),
@@ -1280,6 +1282,8 @@ impl<T: From<f32> + Copy + SimdSize> JitBulkEval<T> {
             self.output_ptrs
                 .extend(self.out.iter_mut().map(|t| t.as_mut_ptr()));
 
+            #[cfg(fidget_verif)]
+            fidget_core::verif::sched_point();
             unsafe {
                 (tape.fn_bulk)(
                     self.input_ptrs.as_ptr(),
@@ -1298,6 +1302,8 @@ impl<T: From<f32> + Copy + SimdSize> JitBulkEval<T> {
             self.output_ptrs.clear();
             self.output_ptrs
                 .extend(self.out.iter_mut().map(|v| v.as_mut_ptr()));
+            #[cfg(fidget_verif)]
+            fidget_core::verif::sched_point();
             unsafe {
                 (tape.fn_bulk)(
                     self.input_ptrs.as_ptr(),
@@ -1320,6 +1326,8 @@ impl<T: From<f32> + Copy + SimdSize> JitBulkEval<T> {
                             .iter_mut()
                             .map(|v| v.as_mut_ptr().add(n - T::SIMD_SIZE)),
                     );
+                    #[cfg(fidget_verif)]
+                    fidget_core::verif::sched_point();
                     (tape.fn_bulk)(
                         self.input_ptrs.as_ptr(),
                         self.output_ptrs.as_ptr(),
